@@ -175,6 +175,7 @@ let rec parse_goal (e : sexp) : goal =
   | L (A "conj" :: gs) -> GConj (List.map parse_goal gs)
   | L (A "fresh" :: L xs :: gs) -> GFresh (List.map (fun x -> intern (atom x)) xs, List.map parse_goal gs)
   | L (A "cond" :: cs) -> GCond (parse_body cs)
+  | L (A "condv" :: cs) -> GCond (parse_body cs)   (* Conde::from_vec: the same answers (multiset / depth-first order) *)
   | L (A "mapsum" :: levels) ->
     (* the labeling combinator, nested: as answers, x is one of its values, then y one of its values, .. *)
     GConj (List.map (fun l -> match l with
